@@ -22,7 +22,7 @@ def closeRows (a b : FRows) : Bool :=
     p.1.length == p.2.length && (p.1.zip p.2).all fun q => q.1.1 == q.2.1 && fclose 1.0 q.1.2 q.2.2
 
 /-- specification of C12 evaluated on an interpolation operator `P` (coarse numbering) -/
-def specCheck (interp : Nat) (A S : FRows) (states : List Int) (P : FRows) (pCols : Nat) : Option (String × String) := Id.run do
+def specCheck (interp : Nat) (A S : FRows) (states : List Int) (P : FRows) (pCols : Nat) (nv : Nat := 1) : Option (String × String) := Id.run do
   let n := A.length
   let nC := ((List.range n).filter (isC states)).length
   if P.length != n then return some ("rows", s!"P has {P.length} rows, A has {n}")
@@ -54,33 +54,39 @@ def specCheck (interp : Nat) (A S : FRows) (states : List Int) (P : FRows) (pCol
       -- strong neighbours that are neither coarse nor fine (isolated labels) are outside the claim
       let cleanNbrs := strong.all fun j => isC states j || isF states j
       let cleanNbrs2 := interp != 2 || (strong.filter (isF states)).all fun k => ((S.getD k []).map (·.1)).all fun c => isC states c || isF states c
-      if isF states i && rs == 0 && hasNegC && mrow && cleanNbrs && cleanNbrs2 then
+      -- (with several unknowns per node the couplings to other unknowns are left out of the weights by design)
+      if nv ≤ 1 && isF states i && rs == 0 && hasNegC && mrow && cleanNbrs && cleanNbrs2 then
         let ps := row.foldl (fun s e => s + e.2) 0
-        if !((ps - 1).abs ≤ 1e-10) then return some ("rowsum", s!"fine point {i}: zero row sum in A, weights sum to {ps}")
+        -- input class: the row has a (weak) neighbour that the distributed splittings label "no strong dependency of
+        -- its own" (neither coarse nor fine): the distributed routines leave such couplings out of the lumped diagonal
+        let isoNbr := arow.any fun e => e.1 != i && !(isC states e.1 || isF states e.1)
+        if !((ps - 1).abs ≤ 1e-10) then
+          return some (if isoNbr then "rowsum/isolated_neighbour" else "rowsum", s!"fine point {i}: zero row sum in A, weights sum to {ps}")
   return none
 
 def checkSeq : Rd Verdict := do
-  let interp ← rdNat; let n ← rdNat; let _θ ← rdInt
+  let interp ← rdNat; let n ← rdNat; let _θ ← rdInt; let nv ← rdNat; let _thr ← rdInt
   let A ← rdCsr; let S ← rdCsr; let states ← rdVec; let P ← rdCsr; let pr ← rdNat; let pc ← rdNat
-  let base := s!"C12/seq/{interpName interp}"
-  let feats := ["seq", interpName interp] ++ (if n ≤ 1 || !(states.contains 0 && states.contains 1) then ["trivial"] else [])
+  let base := s!"C12/seq/{interpName interp}" ++ (if nv > 1 then "/multivar" else "")
+  let feats := ["seq", interpName interp, s!"vars{nv}"] ++ (if n ≤ 1 || !(states.contains 0 && states.contains 1) then ["trivial"] else [])
   if pr != n then return specFail (base ++ "/spec/rows") s!"n_rows={pr}" feats
-  match specCheck interp A S states P pc with
+  match specCheck interp A S states P pc nv with
   | some (cl, msg) => return specFail (base ++ "/spec/" ++ cl) msg feats
   | none => pure ()
-  if interp ≤ 1 then
+  if interp ≤ 1 && nv ≤ 1 then
     let m := if interp == 0 then direct states A S else modClassical (fun (x : Float) => x.abs < 1e-16) states A S
     if !closeRows (canon m) (canon P) then return diff (base ++ "/weights") s!"impl={repr (canon P)} model={repr (canon m)} states={showList states}" feats
   return ok feats
 
 def checkPar : Rd Verdict := do
-  let interp ← rdNat; let n ← rdNat; let np ← rdNat; let tap ← rdNat; let _θ ← rdInt
+  let interp ← rdNat; let n ← rdNat; let np ← rdNat; let tap ← rdNat; let _θ ← rdInt; let nv ← rdNat; let thrB ← rdInt
+  let thr := bitsToFloat thrB
   let A ← rdCsr
   let sents ← rdVec; let states ← rdVec; let pents ← rdVec
   let pdims ← (List.range np).mapM fun _ => do let a ← rdInt; let b ← rdInt; let c ← rdInt; let d ← rdInt; pure (a, b, c, d)
   let Pseq ← rdCsr
-  let base := s!"C12/par/{interpName interp}" ++ (if tap != 0 then "/tap" else "")
-  let feats := ["par", interpName interp, s!"np{np}", if tap != 0 then "tap" else "std",
+  let base := s!"C12/par/{interpName interp}" ++ (if tap != 0 then "/tap" else "") ++ (if nv > 1 then "/multivar" else "") ++ (if thr != 0 then "/truncated" else "")
+  let feats := ["par", interpName interp, s!"np{np}", if tap != 0 then "tap" else "std", s!"vars{nv}",
                 if pdims.any (fun d => d.2.2.1 == 0) then "emptyrank" else "fullranks"] ++
                (if n ≤ 1 || !(states.contains 0 && states.contains 1) then ["trivial"] else [])
   let rec trip : List Int → List (Int × Int × Float)
@@ -103,7 +109,7 @@ def checkPar : Rd Verdict := do
   for d in pdims do
     if d.1 != (n : Int) || d.2.1 != (nC : Int) then
       return specFail (base ++ "/spec/global_dims") s!"P reported {d.1}x{d.2.1}, expected {n}x{nC}" feats
-  match specCheck interp A S states P nC with
+  match specCheck interp A S states P nC nv with
   | some (cl, msg) => return specFail (base ++ "/spec/" ++ cl) msg feats
   | none => pure ()
   -- equal to the sequential operator built from the same matrix, strength pattern and splitting
@@ -114,6 +120,8 @@ def checkPar : Rd Verdict := do
     ((A.getD i []).map (·.1)).all (fun j => isC states j || isF states j) &&
     (strong.filter (isF states)).all (fun k => ((A.getD k []).map (·.1)).all fun c => isC states c || isF states c) &&
     (interp != 2 || (strong.filter (isF states)).all fun k => ((S.getD k []).map (·.1)).all fun c => isC states c || isF states c)
+  -- truncation of small weights exists only in the distributed routine: compared when it is switched off
+  if thr != 0 then return ok (feats ++ ["truncated"])
   let rowsToCompare := (List.range n).filter fun i => isC states i || (isF states i && clean i)
   let pick (R : FRows) : FRows := rowsToCompare.map fun i => R.getD i []
   if !closeRows (canon (pick P)) (canon (pick Pseq)) then
